@@ -870,7 +870,8 @@ def _samp_roots(kind, d, tier="thorough"):
     if kind in ("fgauss", "ffock"):
         return {2: [(1, 0)], 3: [(1, 0, 0)] + ([(0, 1, 1)] if tier != "quick" else []), 4: [(1, 0, 0, 0), (0, 1, 1, 1), (1, 1, 0, 0)]}[d]
     # (every arrangement of the occupations is reached through the relabellings and the permutation gates)
-    return {2: [(0, 1), (2, 1)], 3: [(0, 1, 2)], 4: [(0, 1, 2, 3)]}[d]
+    # d = 4: three photons (two modes share the occupation 0) -- the pairwise different root (0, 1, 2, 3) costs ~1.7 s per PassiveSimulator sample
+    return {2: [(0, 1), (2, 1)], 3: [(0, 1, 2)], 4: [(1, 0, 2, 0)]}[d]
 
 
 def _samp_gates(d):
@@ -1036,7 +1037,7 @@ def _work_samp1(ctx, kind, d, cutoff, occ, gate):
     ctx.counters["max_depth"] = max(ctx.counters.get("max_depth", 0), 1 if gate is not None else 0)
     for pi in P:
         for M in K.ordered_subsets(d, 1, d):
-            for shots, seq in ((3, ss[0]),) + (((1, ss[1]),) if len(M) == d else ()):
+            for shots, seq in ((3, ss[0]),) + (((1, ss[1]),) if len(M) == d and d <= 3 else ()):
                 r = _samp_case(ctx, rep, kind, d, cutoff, occ, gate, pi, M, shots, seq)
                 ctx.count("transitions")
                 if r in ("ok", "violation"):
